@@ -291,21 +291,24 @@ def _admissible(cand, segs, N):
 
 
 @st.composite
-def lattice_net_spec(draw, dims=(2, 3), max_n=4, max_n3=3, max_fracs=3, max_fracs3=2, min_fracs=1):
+def lattice_net_spec(draw, dims=(2, 3), max_n=4, max_n3=3, max_fracs=3, max_fracs3=2, min_fracs=1, min_n=2):
     """Same spec format as gen/mdgrids.mdg_spec (so build_mdg / frac_points apply), but every fracture
     after the first is, with probability 3/4, forced to meet an earlier fracture A in a drawn mode:
       X  both pass through;  Tb  the new one ends at A;  Ta  A ends at the new one;  L  both end.
     Distinct fractures never share (ax, pos).  Infeasible modes fall back to a free fracture."""
     dim = draw(st.sampled_from(list(dims)))
     mx = max_n if dim == 2 else max_n3
-    n = [draw(st.sampled_from(list(range(2, mx + 1)) + [mx])) for _ in range(dim)]
+    n = [draw(st.sampled_from(list(range(min_n, mx + 1)) + [mx])) for _ in range(dim)]
     top = max_fracs if dim == 2 else max_fracs3
     nf = draw(st.sampled_from([k for k in range(min_fracs, top + 1)] + [k for k in range(2, top + 1)] * 2))
     used = set()
     fracs = []
 
     def free():
-        ax = draw(st.sampled_from(list(range(dim))))
+        axes = [a_ for a_ in range(dim) if n[a_] >= 2]   # a fracture needs an interior lattice plane
+        if not axes:
+            return None
+        ax = draw(st.sampled_from(axes))
         pos = draw(st.sampled_from(list(range(1, n[ax]))))
         rng = {}
         long = draw(st.booleans())
@@ -359,6 +362,8 @@ def lattice_net_spec(draw, dims=(2, 3), max_n=4, max_n3=3, max_fracs=3, max_frac
         got = forced(mode) if mode != "free" else None
         if got is None:
             got = free()
+        if got is None:
+            continue
         ax, pos, rng = got
         if (ax, pos) in used:
             continue
